@@ -719,7 +719,8 @@ type Session struct {
 	Sizes     types.Sizes
 	Consts    map[string]string // precomputed constants
 	PkgDirs   map[string]string // package path -> directory
-	InitStubs map[string]int    // body-less functions called (and stubbed with zero results) during package init
+	errVars   map[string]map[string]string
+	InitStubs map[string]int // body-less functions called (and stubbed with zero results) during package init
 }
 
 func (s *Session) newInterpreter() *interpreter {
